@@ -79,15 +79,23 @@ func (tx *Tx) change(f *FeeQuote, output *changeOutput) (uint64, bool, error) {
 	if varIntUpper == -1 {
 		return 0, false, nil
 	}
-	changeOutputFee := varIntUpper
-	changeP2pkhByteLen := uint64(0)
+	stdBytes := size.TotalStdBytes
+	dataBytes := size.TotalDataBytes
 	if output != nil && output.newOutput {
-		changeP2pkhByteLen = uint64(8 + 1 + 25)
+		// the new output is satoshis(8) + script length varint + script, and
+		// it can push the output count varint over to its next size.
+		scriptLen := uint64(len(*output.lockingScript))
+		stdBytes += 8 + uint64(VarInt(scriptLen).Length()) + uint64(varIntUpper)
+		if output.lockingScript.IsData() {
+			dataBytes += scriptLen
+		} else {
+			stdBytes += scriptLen
+		}
 	}
 
-	sFees := (size.TotalStdBytes + changeP2pkhByteLen) * uint64(stdFee.MiningFee.Satoshis) / uint64(stdFee.MiningFee.Bytes)
-	dFees := size.TotalDataBytes * uint64(dataFee.MiningFee.Satoshis) / uint64(dataFee.MiningFee.Bytes)
-	txFees := sFees + dFees + uint64(changeOutputFee)
+	sFees := stdBytes * uint64(stdFee.MiningFee.Satoshis) / uint64(stdFee.MiningFee.Bytes)
+	dFees := dataBytes * uint64(dataFee.MiningFee.Satoshis) / uint64(dataFee.MiningFee.Bytes)
+	txFees := sFees + dFees
 
 	// not enough to add change, no change to add
 	if available <= txFees || available-txFees <= DustLimit {
